@@ -471,12 +471,32 @@ def oracle_conv(c, o):
     return None
 
 
+def translate(ctx):
+    """Regenerate Gen/opnorm_gen.v (literal reading of operator_norm) and re-check gen_lit_* = Model/PowerIterLit.v; C19_literal_refines ties that
+    literal reading to the model the theorems are about."""
+    from translate import opnorm
+    out = vlib.COQ / 'Gen' / 'opnorm_gen.v'
+    out.parent.mkdir(exist_ok=True)
+    ok, why = opnorm.write(out)
+    ctx.extra.setdefault('coverage', {})['translator_available'] = ok
+    ctx.obligations += opnorm.N_OBLIGATIONS
+    if not ok:
+        ctx.notes.append(f'translator harness/translate/opnorm.py failed closed ({why})')
+        ctx.problem('proof', 'gen_opnorm', None, f'operator_norm is outside the translated subset ({why}): the regenerated obligations cannot be stated')
+        return
+    rc, so, se = vlib.coqc_file(out)
+    if rc == 0:
+        ctx.discharged += opnorm.N_OBLIGATIONS
+    else:
+        ctx.problem('proof', 'gen_opnorm', None, 'regenerated obligation gen_lit_*_ok (operator_norm == Model/PowerIterLit.v) no longer proves: ' + (se or so)[-700:])
+
+
 FAMILIES = [
     Family('convergence_any_scale', gen_conv, impl_conv, None, '', None, oracle_conv,
            descr=lambda c: {'dtype': c['dtype'], 'scale_exp': c['scale_exp'], 'batch': c['batch']}, theorem='(implementation-level: convergence is not proved)'),
     Family('power_iteration', gen_power, impl_power, coq_power, PREAMBLE, compare_power, oracle_power,
            nontrivial=lambda c: c['maxit'] >= 1 and any(any(v) for v in c['v0']) and len(c['mats'][0][0]) > 1, descr=descr_power, shard=15,
-           theorem='C19_below_norm, C19_monotone, C19_monotone_step, C19_never_nan, C19_scale_free'),
+           theorem='C19_below_norm, C19_monotone, C19_monotone_step, C19_never_nan, C19_scale_free, C19_literal_refines'),
     # two families on the same kind of cases: the combination rule against the model (never matched by a known finding) and the
     # documented bound against the true norm (horizontal / grid layouts: open finding KF-02)
     Family('matrix_rule', gen_matrix, impl_matrix, coq_matrix, PREAMBLE, compare_matrix, None, descr=descr_matrix, shard=100,
